@@ -50,7 +50,7 @@ func writerCfg(w *writer.Writer) map[string]any {
 
 func readerCfg(r *reader.Reader) map[string]any {
 	o := r.Options
-	c := map[string]any{"fopt": "", "retr": ""}
+	c := map[string]any{"fopt": "", "retr": "", "format": fmtName(o.Format)}
 	if v, ok := o.GetFormatOptions(foptKey).(string); ok {
 		c["fopt"] = v
 	}
@@ -184,6 +184,22 @@ func configRun(args []string) error {
 			} else {
 				ev["used"], ev["usedindent"] = sniffOutput(buf.Bytes())
 			}
+		case "Read":
+			// parse a document of the given format through reader instance i with auto-detection
+			i := integer(ev, "i") - 1
+			if i < 0 || i >= len(rs) {
+				return
+			}
+			data, _, _ := writeDoc(tinyDoc(), fmtNames[str(ev, "which")], 2)
+			doc, err := rs[i].ParseStream(bytes.NewReader(data))
+			switch {
+			case err != nil:
+				ev["got"] = "error"
+			case doc == nil || doc.NodeList == nil || len(doc.NodeList.Nodes) != 1 || doc.NodeList.Nodes[0].Name != "root":
+				ev["got"] = "wrong-document"
+			default:
+				ev["got"] = "ok"
+			}
 		case "StoreNoClobber":
 			i := integer(ev, "i") - 1
 			if i < 0 || i >= len(ws) {
@@ -221,9 +237,9 @@ func configRun(args []string) error {
 	rvals := map[string][]string{"fopt": {"v1", "v2"}, "retr": {"x", "y"}}
 	for sid := 1; sid <= *n; sid++ {
 		exec(map[string]any{"op": "Reset", "sid": sid})
-		nw := 0
+		nw, nr := 0, 0
 		for j := 0; j < *length; j++ {
-			switch k := r.Intn(6); {
+			switch k := r.Intn(8); {
 			case k <= 1 || nw == 0:
 				o, order := subset(wvals)
 				exec(map[string]any{"op": "NewWriter", "sid": sid, "opts": o, "order": order})
@@ -231,6 +247,9 @@ func configRun(args []string) error {
 			case k == 2:
 				o, order := subset(rvals)
 				exec(map[string]any{"op": "NewReader", "sid": sid, "opts": o, "order": order})
+				nr++
+			case k >= 6 && nr > 0:
+				exec(map[string]any{"op": "Read", "sid": sid, "i": 1 + r.Intn(nr), "which": pick(r, []string{"cdx15", "spdx23", "cdx14"})})
 			case k == 3:
 				exec(map[string]any{"op": "Write", "sid": sid, "i": 1 + r.Intn(nw), "callfmt": ""})
 			case k == 4:
